@@ -207,18 +207,30 @@ def section_feedback(rep, ci, mutate=None):
     c0 = model.correct_increments(dt, inc)
     model.update_estimates(x * eps)
     c1 = model.correct_increments(dt, inc)
+    est1 = model.get_estimates()
+    model.reset_estimates()
+    c2 = model.correct_increments(dt, inc)
+    est2 = model.get_estimates()
     meta = {'check': 'feedback', 'params': {'cfg': ci}}
     obls = []
+    for o in (0, 1):
+        for k in range(model.n_states):
+            obls.append(enga.zero('cfg%d: get_estimates after update_estimates(eps x) = eps x, state %d, order %d' % (ci, k, o), (J(est1.values[k]) - x[k] * eps).part(o), 'sensor feedback: sign and scale', meta=meta))
+            obls.append(enga.zero('cfg%d: get_estimates after reset_estimates = 0, state %d, order %d' % (ci, k, o), J(est2.values[k]).part(o), 'sensor feedback: sign and scale', meta=meta))
+        for i in range(3):
+            obls.append(enga.zero('cfg%d: reset_estimates after an update restores the identity correction, axis %d, order %d' % (ci, i, o), (J(c2.values[i]) - inc.values[i]).part(o), 'sensor feedback: sign and scale', meta=meta))
     Hx = np.dot(S.symnp.asarray(model.output_matrix(inc.values / dt)), x) if model.n_states else O([J(0)] * 3)
     for i in range(3):
         obls.append(enga.zero('cfg%d: reset estimates: correct_increments is the identity, axis %d' % (ci, i), J(c0.values[i]) - inc.values[i], 'sensor feedback: sign and scale', meta=meta))
         obls.append(enga.zero('cfg%d: order 0 after an update by eps x, axis %d' % (ci, i), J(c1.values[i]).part(0) - inc.values[i], 'sensor feedback: sign and scale', meta=meta))
         obls.append(enga.zero('cfg%d: d/d eps correct_increments = -(output_matrix(inc/dt) x) dt, axis %d' % (ci, i), J(c1.values[i]).part(1) + Hx[i] * dt, 'sensor feedback: sign and scale', meta=meta))
-    rep.run.encode(m['IS'].EstimationModel.correct_increments, m['IS'].EstimationModel.update_estimates, m['IS'].EstimationModel.output_matrix)
+    rep.run.encode(m['IS'].EstimationModel.correct_increments, m['IS'].EstimationModel.update_estimates, m['IS'].EstimationModel.output_matrix,
+                   m['IS'].EstimationModel.reset_estimates, m['IS'].EstimationModel.get_estimates)
     return obls
 
 
 FEEDBACK_CANARIES = [
+    ('reset keeps the misalignment estimates', ('IS', 'EstimationModel.reset_estimates', 'self.transform = np.identity(3)', 'np.fill_diagonal(self.transform, 1.0)'), 3),
     ('estimate update sign', ('IS', 'EstimationModel.update_estimates', 'self.bias[axis] += xi', 'self.bias[axis] -= xi'), 0),
     ('scale estimate transposed', ('IS', 'EstimationModel.update_estimates', 'self.transform[axis_out, axis_in] += xi', 'self.transform[axis_in, axis_out] += xi'), 3),
 ]
@@ -329,6 +341,14 @@ def replay(spec):
         want = -(model.output_matrix(inc.values / dt) @ x) * dt if model.n_states else np.zeros(3)
         if np.abs(d - want).max() > 1e-4 * max(np.abs(want).max(), 1e-9):
             fails.append('sensor feedback does not have the sign/scale of the modelled error: %s vs %s' % (d.tolist(), want.tolist()))
+        model.update_estimates(x)
+        if model.n_states and np.abs(model.get_estimates().values - (1 + eps) * x).max() > 1e-12 * max(1.0, np.abs(x).max()):
+            fails.append('get_estimates does not return the accumulated updates')
+        model.reset_estimates()
+        if model.n_states and np.abs(model.get_estimates().values).max() != 0:
+            fails.append('get_estimates is not zero after reset_estimates')
+        if not np.array_equal(model.correct_increments(dt, inc).values, inc.values):
+            fails.append('after update_estimates and reset_estimates correct_increments is not the identity: %s vs %s' % (model.correct_increments(dt, inc).values.tolist(), inc.values.tolist()))
         return {'violated': bool(fails), 'detail': fails}
     from ..filtercheck import replay_schedule
     from pyins import filters, strapdown, inertial_sensor
